@@ -13,12 +13,14 @@ from typing import Any, Dict, Iterator, List, Optional, Tuple
 
 KINDS = ["gen", "coro", "agen"]
 CONTEXTS = ["none", "try_body", "tryfinally_body", "finally_body", "except_body", "for", "while", "if", "match",
-            "in_with", "in_async_with", "else_of_try", "for_else"]
+            "in_with", "in_async_with", "else_of_try", "for_else",
+            # a loop between an outer with and the with under study (break / continue leave the inner block only)
+            "in_with_for", "in_with_while", "in_with_while_with", "in_with_for_with"]
 TAILS = ["plain", "try_except_last", "try_finally_last", "if_return_const", "if_return_value", "if_break",
          "if_continue", "raise", "nested_with", "swallow", "empty", "if_else_return", "return_in_try_finally",
          "nested_async_with", "try_except_else_last", "if_return_none", "oneline_pass", "try_finally_del", "while_last",
          # the body's last instruction carries inline cache entries (the exception-table range ends on a CACHE unit)
-         "store_attr_last", "store_subscr_last"]
+         "store_attr_last", "store_subscr_last", "if_continue_last"]
 CONTS = ["nothing", "stmt", "second_with"]
 
 
@@ -75,8 +77,8 @@ def build(kind: str, ctx: str, is_async: bool, nitems: int, tail: str, cont: str
         return None
     if tail == "nested_async_with" and kind in ("gen", "func"):
         return None
-    in_loop = ctx in ("for", "while", "for_else")
-    if tail in ("if_break", "if_continue") and not in_loop:
+    in_loop = ctx in ("for", "while", "for_else", "in_with_for", "in_with_while", "in_with_while_with", "in_with_for_with")
+    if tail in ("if_break", "if_continue", "if_continue_last") and not in_loop:
         return None
     if kind == "agen" and tail in ("if_return_const", "if_return_value", "if_else_return", "return_in_try_finally"):
         # async generators cannot return a value; the bare-return shape is covered by if_return_none
@@ -102,6 +104,8 @@ def build(kind: str, ctx: str, is_async: bool, nitems: int, tail: str, cont: str
         body = S() + ["if E.c(0):", "    break"]
     elif tail == "if_continue":
         body = S() + ["if E.c(0):", "    continue"] + S()
+    elif tail == "if_continue_last":
+        body = S() + ["if E.c(0):", "    continue"]
     elif tail in ("raise", "swallow"):
         body = S() + ["if E.c(0):", "    raise E.Err()"]
     elif tail == "nested_with":
@@ -159,6 +163,15 @@ def build(kind: str, ctx: str, is_async: bool, nitems: int, tail: str, cont: str
         lines = g.WITH(False, 1, W + S(), target="o")
     elif ctx == "in_async_with":
         lines = g.WITH(True, 1, W + S(), target="o")
+    elif ctx == "in_with_for":
+        lines = g.WITH(False, 1, ["for i in E.it():"] + ind(W) + S(), target="o")
+    elif ctx == "in_with_while":
+        lines = g.WITH(False, 1, ["while E.n(2):"] + ind(W) + S(), target="o")
+    elif ctx == "in_with_while_with":
+        # break / continue inside W leave W's block AND the middle one, but not the outer one
+        lines = g.WITH(False, 1, ["while E.n(2):"] + ind(g.WITH(False, 1, W, target="mid")) + S(), target="o")
+    elif ctx == "in_with_for_with":
+        lines = g.WITH(False, 1, ["for i in E.it():"] + ind(g.WITH(False, 1, W, target="mid")) + S(), target="o")
     else:
         raise AssertionError(ctx)
     lines = lines + S()
